@@ -617,7 +617,10 @@ pub fn gen_c07(rng: &mut Rng, _i: u64, tier: Tier) -> Script {
                 let style = rng.next_u64();
                 s.ops = gen::stream_ops(rng, n_in, style, &[0, 0, 1, 2, 5]);
             }
-            s.set("finish_tail", 0);
+            // Finish once everything has been delivered (valid streams: the wrapper's result must still equal
+            // the one-call run of the core decoder)
+            let valid_stream = vs.is_some() && s.faults.is_empty();
+            s.set("finish_tail", (valid_stream && rng.chance(1, 2)) as i64);
         }
         s.set("hasmore", match rng.below(20) {
             0 | 1 | 2 => 1,
